@@ -52,7 +52,7 @@ theorem nodup_map_inj {α β} (f : α → β) : ∀ (l : List α), (l.map f).Nod
     · subst hb; exact absurd hab (hn.1 a ha)
     · exact nodup_map_inj f t hn.2 a b ha hb hab
 
-structure Inv (s : State) : Prop where
+structure Inv (cfg : Cfg) (s : State) : Prop where
   keys_le : ∀ e ∈ s.open, e.1 ≤ s.count
   keys_nodup : (s.open.map (·.1)).Nodup
   ids_lt : ∀ e ∈ s.open, e.2 < s.nobj
@@ -62,20 +62,23 @@ structure Inv (s : State) : Prop where
   open_issued : ∀ e ∈ s.open, e.1 ∈ s.issued
   closed_le : ∀ h ∈ s.closedH, h ≤ s.count
   closed_not_open : ∀ h ∈ s.closedH, h ∉ s.open.map (·.1)
-  obj_open : ∀ e ∈ s.open, (s.objs e.2).closed = 0 ∧ (s.objs e.2).ctx = 0
-  obj_closed : ∀ id, id < s.nobj → id ∉ s.open.map (·.2) →
+  /-- while Serve runs, what is in the table has not been closed -/
+  obj_open : s.ended = false → ∀ e ∈ s.open, (s.objs e.2).closed = 0 ∧ (s.objs e.2).ctx = 0
+  /-- what has left the table — or was in it when Serve returned — was closed exactly once -/
+  obj_closed : ∀ id, id < s.nobj → (id ∉ s.open.map (·.2) ∨ s.ended = true) →
     (s.objs id).closed = (s.objs id).real.toNat ∧ (s.objs id).ctx = 1
   terr_zero : s.ended = false → ∀ id, (s.objs id).terr = 0
-  ended_open : s.ended = true → s.open = []
+  ended_open : s.ended = true → cfg.sweepEmptiesTable = true → s.open = []
 
-theorem Inv.init : Inv State.init := by
+theorem Inv.init (cfg : Cfg) : Inv cfg State.init := by
   refine ⟨?_, ?_, ?_, ?_, ?_, ?_, ?_, ?_, ?_, ?_, ?_, ?_, ?_⟩ <;> simp [State.init, Obj.new]
 
-theorem Inv.with_log {s : State} (hi : Inv s) (l : List Status) : Inv { s with log := l } :=
+theorem Inv.with_log {cfg : Cfg} {s : State} (hi : Inv cfg s) (l : List Status) : Inv cfg { s with log := l } :=
   ⟨hi.keys_le, hi.keys_nodup, hi.ids_lt, hi.ids_nodup, hi.issued_le, hi.issued_nodup, hi.open_issued,
    hi.closed_le, hi.closed_not_open, hi.obj_open, hi.obj_closed, hi.terr_zero, hi.ended_open⟩
 
-theorem inv_opened {s : State} (hi : Inv s) (hne : s.ended = false) (real : Bool) : Inv (opened s real) := by
+theorem inv_opened {cfg : Cfg} {s : State} (hi : Inv cfg s) (hne : s.ended = false) (kind : Kind) :
+    Inv cfg (opened s kind) := by
   have hk : s.count + 1 ∉ s.open.map (·.1) := by
     intro hm; obtain ⟨e, he, h1⟩ := List.mem_map.mp hm; have := hi.keys_le e he; omega
   have hid : s.nobj ∉ s.open.map (·.2) := by
@@ -119,24 +122,28 @@ theorem inv_opened {s : State} (hi : Inv s) (hne : s.ended = false) (real : Bool
       List.mem_cons, List.not_mem_nil, or_false, not_or] at hh ⊢
     have := hi.closed_le h hh
     exact ⟨hi.closed_not_open h hh, by omega⟩
-  · intro e he; simp only [opened, List.mem_append, List.mem_cons, List.not_mem_nil, or_false] at he ⊢
+  · intro _ e he; simp only [opened, List.mem_append, List.mem_cons, List.not_mem_nil, or_false] at he ⊢
     rcases he with he | he
     · have := hi.ids_lt e he
-      rw [upd_other _ _ _ _ (by omega)]; exact hi.obj_open e he
+      rw [upd_other _ _ _ _ (by omega)]; exact hi.obj_open hne e he
     · subst he; simp [Obj.new]
   · intro id hlt hnm
+    have hnm' : id ∉ (opened s kind).open.map (·.2) := by
+      rcases hnm with h | h
+      · exact h
+      · simp only [opened] at h; rw [hne] at h; cases h
     simp only [opened, List.map_append, List.map_cons, List.map_nil, List.mem_append, List.mem_cons,
-      List.not_mem_nil, or_false, not_or] at hlt hnm ⊢
-    rw [upd_other _ _ _ _ hnm.2]
-    exact hi.obj_closed id (by omega) hnm.1
+      List.not_mem_nil, or_false, not_or] at hlt hnm' ⊢
+    rw [upd_other _ _ _ _ hnm'.2]
+    exact hi.obj_closed id (by omega) (Or.inl hnm'.1)
   · intro _ id; simp only [opened]
     by_cases h : id = s.nobj
     · subst h; simp [Obj.new]
     · rw [upd_other _ _ _ _ h]; exact hi.terr_zero hne id
   · intro he; simp only [opened] at he; rw [hne] at he; cases he
 
-theorem inv_closeEntry {cfg : Cfg} (hg : Good cfg) {s : State} (hi : Inv s) (hne : s.ended = false)
-    {h id : Nat} (hm : (h, id) ∈ s.open) : Inv (closeEntry cfg s h id) := by
+theorem inv_closeEntry {cfg : Cfg} (hg : Good cfg) {s : State} (hi : Inv cfg s) (hne : s.ended = false)
+    {h id : Nat} (hm : (h, id) ∈ s.open) : Inv cfg (closeEntry cfg s h id) := by
   have hsub : ∀ e, e ∈ s.open.filter (fun e => !(e.1 == h)) → e ∈ s.open ∧ e.1 ≠ h := by
     intro e he; obtain ⟨h1, h2⟩ := List.mem_filter.mp he; exact ⟨h1, by simpa using h2⟩
   have hsl : List.Sublist (s.open.filter (fun e => !(e.1 == h))) s.open := List.filter_sublist
@@ -162,44 +169,53 @@ theorem inv_closeEntry {cfg : Cfg} (hg : Good cfg) {s : State} (hi : Inv s) (hne
     rcases hh with hh | hh
     · exact hi.closed_not_open h' hh (List.mem_map.mpr ⟨e, (hsub e he).1, h1⟩)
     · subst hh; exact (hsub e he).2 h1
-  · intro e he; simp only
+  · intro _ e he; simp only
     rw [upd_other _ _ _ _ (hidne e (hsub e he).1 (hsub e he).2)]
-    exact hi.obj_open e (hsub e he).1
+    exact hi.obj_open hne e (hsub e he).1
   · intro id' hlt hnm; simp only at hlt hnm ⊢
+    have hnm' : id' ∉ (s.open.filter (fun e => !(e.1 == h))).map (·.2) := by
+      rcases hnm with h1 | h1
+      · exact h1
+      · rw [hne] at h1; cases h1
     by_cases hid : id' = id
     · subst hid; rw [upd_same]
-      have := hi.obj_open _ hm
+      have := hi.obj_open hne _ hm
       simp only at this
-      simp [Obj.close, this.1, this.2]
+      simp [Obj.close, Obj.real, this.1, this.2]
     · rw [upd_other _ _ _ _ hid]
       apply hi.obj_closed id' hlt
+      left
       intro hmem
       obtain ⟨e, he, h1⟩ := List.mem_map.mp hmem
       by_cases hk : e.1 = h
       · have := nodup_map_inj (·.1) s.open hi.keys_nodup e (h, id) he hm hk
         rw [this] at h1; exact hid h1.symm
-      · exact hnm (List.mem_map.mpr ⟨e, List.mem_filter.mpr ⟨he, by simpa using hk⟩, h1⟩)
+      · exact hnm' (List.mem_map.mpr ⟨e, List.mem_filter.mpr ⟨he, by simpa using hk⟩, h1⟩)
   · intro _ id'; simp only
     by_cases hid : id' = id
     · subst hid; rw [upd_same]; simp only [Obj.close]; exact hi.terr_zero hne id'
     · rw [upd_other _ _ _ _ hid]; exact hi.terr_zero hne id'
   · intro he; simp only at he; rw [hne] at he; cases he
 
-theorem inv_touch {s : State} (hi : Inv s) (id : Nat) :
-    Inv { s with objs := upd s.objs id (s.objs id).touch } := by
-  have key : ∀ i, (upd s.objs id (s.objs id).touch i).closed = (s.objs i).closed ∧
-      (upd s.objs id (s.objs id).touch i).ctx = (s.objs i).ctx ∧
-      (upd s.objs id (s.objs id).touch i).real = (s.objs i).real ∧
-      (upd s.objs id (s.objs id).touch i).terr = (s.objs i).terr := by
-    intro i
-    by_cases h : i = id
-    · subst h; rw [upd_same]; simp [Obj.touch]
-    · rw [upd_other _ _ _ _ h]; simp
+/-- Touching an object changes nothing but its `touched` counter. -/
+theorem touch_fields (s : State) (id i : Nat) :
+    (upd s.objs id (s.objs id).touch i).closed = (s.objs i).closed ∧
+    (upd s.objs id (s.objs id).touch i).ctx = (s.objs i).ctx ∧
+    (upd s.objs id (s.objs id).touch i).real = (s.objs i).real ∧
+    (upd s.objs id (s.objs id).touch i).terr = (s.objs i).terr ∧
+    (upd s.objs id (s.objs id).touch i).kind = (s.objs i).kind := by
+  by_cases h : i = id
+  · subst h; rw [upd_same]; simp [Obj.touch, Obj.real]
+  · rw [upd_other _ _ _ _ h]; simp
+
+theorem inv_touch {cfg : Cfg} {s : State} (hi : Inv cfg s) (id : Nat) :
+    Inv cfg { s with objs := upd s.objs id (s.objs id).touch } := by
+  have key := touch_fields s id
   refine ⟨hi.keys_le, hi.keys_nodup, hi.ids_lt, hi.ids_nodup, hi.issued_le, hi.issued_nodup, hi.open_issued,
    hi.closed_le, hi.closed_not_open, ?_, ?_, ?_, hi.ended_open⟩
-  · intro e he; simp only; rw [(key e.2).1, (key e.2).2.1]; exact hi.obj_open e he
+  · intro hne e he; simp only; rw [(key e.2).1, (key e.2).2.1]; exact hi.obj_open hne e he
   · intro i hlt hnm; simp only; rw [(key i).1, (key i).2.1, (key i).2.2.1]; exact hi.obj_closed i hlt hnm
-  · intro hne i; simp only; rw [(key i).2.2.2]; exact hi.terr_zero hne i
+  · intro hne i; simp only; rw [(key i).2.2.2.1]; exact hi.terr_zero hne i
 
 theorem step_live {cfg : Cfg} {s s' : State} {act : Action} (h : step cfg s act = some s') :
     s.ended = false ∧ live cfg s act = some s' := by
@@ -208,53 +224,85 @@ theorem step_live {cfg : Cfg} {s s' : State} {act : Action} (h : step cfg s act 
   | false => rw [he] at h; exact ⟨rfl, by simpa using h⟩
   | true => rw [he] at h; simp at h
 
-theorem inv_sweep {cfg : Cfg} (hg : Good cfg) {s s' : State} {err : Bool} (hi : Inv s)
-    (h : step cfg s (.sweep err) = some s') : Inv s' := by
+/-- The sweep, object by object (given that it closes). -/
+theorem sweepObj_fields {cfg : Cfg} (hswp : cfg.sweepClosesAll = true) (err : Bool) (o : Obj) :
+    (sweepObj cfg err o).closed = o.closed + o.real.toNat ∧ (sweepObj cfg err o).ctx = o.ctx + 1 ∧
+    (sweepObj cfg err o).kind = o.kind ∧ (sweepObj cfg err o).real = o.real ∧
+    (sweepObj cfg err o).touched = o.touched ∧
+    (sweepObj cfg err o).terr =
+      o.terr + (if (cfg.sweepNotifiesTransferError && err && cfg.notifies o.kind) = true then 1 else 0) := by
+  unfold sweepObj
+  rw [hswp]
+  by_cases hn : (cfg.sweepNotifiesTransferError && err && cfg.notifies o.kind) = true
+  · simp [hn, Obj.close, Obj.notify, Obj.real]
+  · simp [hn, Obj.close, Obj.real]
+
+theorem inv_sweep {cfg : Cfg} (hg : Good cfg) {s s' : State} {err : Bool} (hi : Inv cfg s)
+    (h : step cfg s (.sweep err) = some s') : Inv cfg s' := by
   obtain ⟨hne, h⟩ := step_live h
-  simp only [live, hg.swp, ↓reduceIte, Option.some.injEq] at h
+  simp only [live, Option.some.injEq] at h
   subst h
+  have hsl : ∀ e, e ∈ (if cfg.sweepEmptiesTable = true then [] else s.open) → e ∈ s.open := by
+    intro e he; split at he
+    · cases he
+    · exact he
+  have hsub : List.Sublist (if cfg.sweepEmptiesTable = true then [] else s.open) s.open := by
+    split
+    · exact List.nil_sublist _
+    · exact List.Sublist.refl _
   refine ⟨?_, ?_, ?_, ?_, hi.issued_le, hi.issued_nodup, ?_, hi.closed_le, ?_, ?_, ?_, ?_, ?_⟩
-  · intro e he; cases he
-  · simp
-  · intro e he; cases he
-  · simp
-  · intro e he; cases he
-  · intro h' _; simp
-  · intro e he; cases he
+  · intro e he; exact hi.keys_le e (hsl e he)
+  · exact hi.keys_nodup.sublist (hsub.map _)
+  · intro e he; exact hi.ids_lt e (hsl e he)
+  · exact hi.ids_nodup.sublist (hsub.map _)
+  · intro e he; exact hi.open_issued e (hsl e he)
+  · intro h' hh hmem
+    obtain ⟨e, he, h1⟩ := List.mem_map.mp hmem
+    exact hi.closed_not_open h' hh (List.mem_map.mpr ⟨e, hsl e he, h1⟩)
+  · intro he; cases he
   · intro id hlt _; simp only at hlt ⊢
     by_cases hm : id ∈ s.open.map (·.2)
     · rw [if_pos hm]
       obtain ⟨e, he, h1⟩ := List.mem_map.mp hm
-      have := hi.obj_open e he
+      have := hi.obj_open hne e he
       rw [h1] at this
-      by_cases hn : (cfg.sweepNotifiesTransferError && err) = true
-      · simp [hn, Obj.close, Obj.notify, this.1, this.2]
-      · simp [hn, Obj.close, this.1, this.2]
-    · rw [if_neg hm]; exact hi.obj_closed id hlt hm
+      have f := sweepObj_fields hg.swp err (s.objs id)
+      rw [f.1, f.2.1, f.2.2.2.1, this.1, this.2]
+      simp
+    · rw [if_neg hm]; exact hi.obj_closed id hlt (Or.inl hm)
   · intro he; cases he
-  · intro _; rfl
+  · intro _ hse; simp [hse]
 
-theorem step_inv {cfg : Cfg} (hg : Good cfg) {s s' : State} {act : Action} (hi : Inv s)
-    (h : step cfg s act = some s') : Inv s' := by
+theorem step_inv {cfg : Cfg} (hg : Good cfg) {s s' : State} {act : Action} (hi : Inv cfg s)
+    (h : step cfg s act = some s') : Inv cfg s' := by
   have h0 := h
   obtain ⟨hne, h⟩ := step_live h
   cases act with
-  | openOk =>
+  | openOk k =>
     simp only [live, Option.some.injEq] at h
     subst h
-    exact (inv_opened hi hne true).with_log _
+    exact (inv_opened hi hne k).with_log _
   | openFail =>
     simp only [live, ↓reduceIte, hg.cfo] at h
     split at h
     · injection h with h; subst h
-      have h1 : Inv ({ opened s false with log := s.log ++ [Status.fail] }) :=
-        (inv_opened hi hne false).with_log _
+      have h1 : Inv cfg ({ opened s .placeholder with log := s.log ++ [Status.fail] }) :=
+        (inv_opened hi hne .placeholder).with_log _
       exact inv_closeEntry hg h1 hne (by simp [opened])
     · injection h with h; subst h; exact hi.with_log _
   | use hd =>
     simp only [live] at h
     split at h
     · injection h with h; subst h; exact (inv_touch hi _).with_log _
+    · injection h with h; subst h; exact hi.with_log _
+  | useAs hd n =>
+    simp only [live] at h
+    split at h
+    · split at h
+      · injection h with h; subst h; exact (inv_touch hi _).with_log _
+      · split at h
+        · injection h with h; subst h; exact hi.with_log _
+        · injection h with h; subst h; exact (inv_touch hi _).with_log _
     · injection h with h; subst h; exact hi.with_log _
   | close hd =>
     simp only [live] at h
@@ -265,8 +313,8 @@ theorem step_inv {cfg : Cfg} (hg : Good cfg) {s s' : State} {act : Action} (hi :
     · injection h with h; subst h; exact hi.with_log _
   | sweep err => exact inv_sweep hg hi h0
 
-theorem run_inv {cfg : Cfg} (hg : Good cfg) : ∀ (acts : List Action) {s s' : State}, Inv s →
-    run cfg s acts = some s' → Inv s'
+theorem run_inv {cfg : Cfg} (hg : Good cfg) : ∀ (acts : List Action) {s s' : State}, Inv cfg s →
+    run cfg s acts = some s' → Inv cfg s'
   | [], s, s', hi, h => by simp only [run] at h; injection h with h; subst h; exact hi
   | a :: as, s, s', hi, h => by
     simp only [run] at h
@@ -288,7 +336,7 @@ theorem step_mono {cfg : Cfg} (hg : Good cfg) {s s' : State} {act : Action} (h :
     (∀ x, x ∈ s.closedH → x ∈ s'.closedH) ∧ (∀ x, x ∈ s.issued → x ∈ s'.issued) ∧ s.count ≤ s'.count := by
   obtain ⟨hne, h⟩ := step_live h
   cases act with
-  | openOk =>
+  | openOk k =>
     simp only [live, Option.some.injEq] at h
     subst h; exact ⟨fun _ hx => hx, fun _ hx => List.mem_append_left _ hx, Nat.le_succ _⟩
   | openFail =>
@@ -301,6 +349,10 @@ theorem step_mono {cfg : Cfg} (hg : Good cfg) {s s' : State} {act : Action} (h :
   | use hd =>
     simp only [live] at h
     split at h <;> (injection h with h; subst h; exact ⟨fun _ hx => hx, fun _ hx => hx, Nat.le_refl _⟩)
+  | useAs hd n =>
+    simp only [live] at h
+    repeat' split at h
+    all_goals (injection h with h; subst h; exact ⟨fun _ hx => hx, fun _ hx => hx, Nat.le_refl _⟩)
   | close hd =>
     simp only [live] at h
     split at h
@@ -326,5 +378,123 @@ theorem run_mono {cfg : Cfg} (hg : Good cfg) : ∀ (acts : List Action) {s s' : 
       have m2 := run_mono hg as h
       exact ⟨fun x hx => m2.1 x (m1.1 x hx), fun x hx => m2.2.1 x (m1.2.1 x hx), Nat.le_trans m1.2.2 m2.2.2⟩
     · cases h
+
+/-! ### an object keeps the kind it was created with -/
+
+theorem sweepObj_kind (cfg : Cfg) (err : Bool) (o : Obj) : (sweepObj cfg err o).kind = o.kind := by
+  unfold sweepObj
+  by_cases hn : (cfg.sweepNotifiesTransferError && err && cfg.notifies o.kind) = true <;>
+    by_cases hc : cfg.sweepClosesAll = true <;> simp [hn, hc, Obj.close, Obj.notify]
+
+theorem upd_kind (f : Nat → Obj) (k : Nat) (v : Obj) (hv : v.kind = (f k).kind) (i : Nat) :
+    (upd f k v i).kind = (f i).kind := by
+  by_cases h : i = k
+  · subst h; rw [upd_same]; exact hv
+  · rw [upd_other _ _ _ _ h]
+
+theorem upd_touch_kind (f : Nat → Obj) (k i : Nat) : (upd f k (f k).touch i).kind = (f i).kind :=
+  upd_kind f k (f k).touch rfl i
+
+theorem upd_close_kind (f : Nat → Obj) (k i : Nat) : (upd f k (f k).close i).kind = (f i).kind :=
+  upd_kind f k (f k).close rfl i
+
+theorem closeEntry_kind (cfg : Cfg) (s : State) (h id i : Nat) :
+    ((closeEntry cfg s h id).objs i).kind = (s.objs i).kind ∧ (closeEntry cfg s h id).nobj = s.nobj :=
+  ⟨upd_close_kind s.objs id i, rfl⟩
+
+theorem step_kind {cfg : Cfg} {s s' : State} {act : Action} (h : step cfg s act = some s') :
+    s.nobj ≤ s'.nobj ∧ ∀ id, id < s.nobj → (s'.objs id).kind = (s.objs id).kind := by
+  obtain ⟨_, h⟩ := step_live h
+  cases act with
+  | openOk k =>
+    simp only [live, Option.some.injEq] at h
+    subst h
+    refine ⟨Nat.le_succ _, fun id hid => ?_⟩
+    simp only [opened]; rw [upd_other _ _ _ _ (by omega)]
+  | openFail =>
+    simp only [live] at h
+    repeat' split at h
+    all_goals (injection h with h; subst h)
+    · refine ⟨?_, fun id hid => ?_⟩
+      · rw [(closeEntry_kind _ _ _ _ 0).2]; exact Nat.le_succ _
+      · rw [(closeEntry_kind _ _ _ _ id).1]; simp only [opened]; rw [upd_other _ _ _ _ (by omega)]
+    · refine ⟨Nat.le_succ _, fun id hid => ?_⟩
+      simp only [opened]; rw [upd_other _ _ _ _ (by omega)]
+    · exact ⟨Nat.le_refl _, fun _ _ => rfl⟩
+  | use hd =>
+    simp only [live] at h
+    split at h <;> (injection h with h; subst h)
+    · exact ⟨Nat.le_refl _, fun id _ => upd_touch_kind _ _ id⟩
+    · exact ⟨Nat.le_refl _, fun _ _ => rfl⟩
+  | useAs hd n =>
+    simp only [live] at h
+    repeat' split at h
+    all_goals (injection h with h; subst h)
+    · exact ⟨Nat.le_refl _, fun id _ => upd_touch_kind _ _ id⟩
+    · exact ⟨Nat.le_refl _, fun _ _ => rfl⟩
+    · exact ⟨Nat.le_refl _, fun id _ => upd_touch_kind _ _ id⟩
+    · exact ⟨Nat.le_refl _, fun _ _ => rfl⟩
+  | close hd =>
+    simp only [live] at h
+    split at h <;> (injection h with h; subst h)
+    · exact ⟨Nat.le_refl _, fun id _ => upd_close_kind s.objs _ id⟩
+    · exact ⟨Nat.le_refl _, fun _ _ => rfl⟩
+  | sweep err =>
+    simp only [live, Option.some.injEq] at h
+    subst h
+    refine ⟨Nat.le_refl _, fun id _ => ?_⟩
+    simp only
+    split
+    · exact sweepObj_kind _ _ _
+    · rfl
+
+theorem run_kind {cfg : Cfg} : ∀ (acts : List Action) {s s' : State}, run cfg s acts = some s' →
+    s.nobj ≤ s'.nobj ∧ ∀ id, id < s.nobj → (s'.objs id).kind = (s.objs id).kind
+  | [], s, s', h => by
+    simp only [run] at h; injection h with h; subst h; exact ⟨Nat.le_refl _, fun _ _ => rfl⟩
+  | a :: as, s, s', h => by
+    simp only [run] at h
+    split at h
+    · next s1 h1 =>
+      have m1 := step_kind h1
+      have m2 := run_kind as h
+      exact ⟨Nat.le_trans m1.1 m2.1, fun id hid => (m2.2 id (by omega)).trans (m1.2 id hid)⟩
+    · cases h
+
+/-! ### `Request.transferError` tells exactly the transfer objects -/
+
+/-- The source fact of (a): the kinds `Request.transferError` notifies are reader, writer and
+reader-writer — and no other. -/
+def NotifiesTransfer (cfg : Cfg) : Prop := ∀ k : Kind, cfg.notifies k = k.isTransfer
+
+theorem notifiesTransfer_iff (cfg : Cfg) :
+    NotifiesTransfer cfg ↔ (Kind.all.all fun k => cfg.notifies k == k.isTransfer) = true := by
+  constructor
+  · intro h; simp only [Kind.all, List.all_cons, List.all_nil, Bool.and_true, Bool.and_eq_true, beq_iff_eq]
+    exact ⟨h _, h _, h _, h _, h _⟩
+  · intro h k
+    simp only [Kind.all, List.all_cons, List.all_nil, Bool.and_true, Bool.and_eq_true, beq_iff_eq] at h
+    cases k
+    · exact h.1
+    · exact h.2.1
+    · exact h.2.2.1
+    · exact h.2.2.2.1
+    · exact h.2.2.2.2
+
+instance (cfg : Cfg) : Decidable (NotifiesTransfer cfg) := decidable_of_iff _ (notifiesTransfer_iff cfg).symm
+
+theorem lookup_ne_none_of_mem : ∀ (l : List (Nat × Nat)) (e : Nat × Nat), e ∈ l → l.lookup e.1 ≠ none
+  | [], _, h => by cases h
+  | x :: t, e, hm => by
+    intro hn
+    rw [List.lookup_cons] at hn
+    by_cases hx : e.1 = x.1
+    · simp [hx] at hn
+    · have : (e.1 == x.1) = false := by simp [hx]
+      rw [this] at hn
+      simp only [List.mem_cons] at hm
+      rcases hm with hm | hm
+      · subst hm; exact hx rfl
+      · exact lookup_ne_none_of_mem t e hm hn
 
 end Sftp.Handles
